@@ -26,6 +26,7 @@ from typing import Any, Callable, Dict, List, Optional, Sequence, Tuple
 
 from .astutil import txt
 from .index import AnalysisError, dotted
+from .astutil import clone
 
 
 class OutsideFragment(AnalysisError):
@@ -69,8 +70,7 @@ class _Renamer(ast.NodeTransformer):
 
 def rename(expr: ast.AST, mapping: Dict[str, str]) -> ast.AST:
     """ replace maximal dotted paths / call texts found in mapping by atom names """
-    import copy
-    return ast.fix_missing_locations(_Renamer(mapping).visit(copy.deepcopy(expr)))
+    return ast.fix_missing_locations(_Renamer(mapping).visit(clone(expr)))
 
 
 def parse(text: str) -> ast.expr:
